@@ -4,6 +4,7 @@ import (
 	"fmt"
 	"strings"
 	"testing"
+	"time"
 
 	"github.com/cybergarage/go-redis/redis"
 	"verif/sim/resp"
@@ -56,6 +57,19 @@ func runC13(t *testing.T, tape *sim.Tape, tier string) *Outcome {
 		cl.Srv.SetRequirePass(pw)
 	}
 	cl.Sticky = tape.Draw(4, "sticky")
+	// a quarter of the runs: some acquisitions of the command lock find it busy (phantom holder), so that what
+	// the code does while it waits for the lock is part of the explored behaviour
+	if tape.Draw(4, "contention") == 3 {
+		cl.Contend = make([]bool, 64)
+		for i := range cl.Contend {
+			cl.Contend[i] = tape.Draw(4, "busy") == 3
+		}
+	}
+	// simulated time passes at seed-chosen moments between the other events (timeouts, deadlines and timers of the
+	// code under test fire against this clock)
+	for i := tape.Draw(4, "nticks"); i > 0; i-- {
+		cl.Ticks = append(cl.Ticks, []time.Duration{50 * time.Millisecond, time.Second, 11 * time.Second, 61 * time.Second, 10 * time.Minute, 3 * time.Hour}[tape.Draw(6, "tick")])
+	}
 	maxConn := 8
 	nconn := 2 + tape.Draw(maxConn-1, "nconn")
 	maxReq := 10
@@ -187,6 +201,12 @@ func runC13(t *testing.T, tape *sim.Tape, tier string) *Outcome {
 			}
 		}
 	}
+	// one run in eight: the server is stopped at a seed-chosen moment; commands already inside a handler call
+	// complete after their connection was closed and must still see their own connection's state
+	if tape.Draw(8, "stopmid") == 7 {
+		cl.lifecycle("Stop")
+		o.stat("runs_with_stop_in_the_middle", 1)
+	}
 	budget := 3000
 	for _, sc := range all {
 		budget += 60 * len(sc.c.stream)
@@ -260,7 +280,7 @@ func init() {
 	register(&Check{
 		ID: "C13", Bubble: true, Run: runC13,
 		Runs:   map[string]int{"quick": 16000, "thorough": 500000},
-		Rule:   "a case is one run of the full server (with or without a required password) and 2..8 connections that dial, send 2..10 (thorough ..20) requests over {SELECT valid/invalid/missing/negative/huge (the database moves iff the answer is OK), AUTH right/wrong, PING, data commands, CONFIG SET/GET incl. CONFIG SET requirepass when a password is required} and close at seeded moments, interleaved at byte-delivery and handler-entry granularity with a swarm-chosen bias towards staying on one connection; inside every handler call conn.Database(), IsAuthrized(), the per-connection sync.Map token and the *redis.Conn identity are compared with that connection's own history; distinct = distinct (shape, order in which handler calls of the connections interleaved) signatures",
+		Rule:   "a case is one run of the full server (with or without a required password) and 2..8 connections that dial, send 2..10 (thorough ..20) requests over {SELECT valid/invalid/missing/negative/huge (the database moves iff the answer is OK), AUTH right/wrong, PING, data commands, CONFIG SET/GET incl. CONFIG SET requirepass when a password is required} and close at seeded moments (one run in eight also stops the server in the middle), interleaved at byte-delivery and handler-entry granularity with a swarm-chosen bias towards staying on one connection; inside every handler call conn.Database(), IsAuthrized(), the per-connection sync.Map token and the *redis.Conn identity are compared with that connection's own history; distinct = distinct (shape, order in which handler calls of the connections interleaved) signatures",
 		Real:   []string{"redis.Server accept loop, connection goroutines, SELECT/AUTH executors, redis.Conn state, connection registry"},
 		Stub:   []string{"network: simulated", "handler: recording double (parks at entry)"},
 		Assume: []string{"negative database indexes are not generated"},
